@@ -110,7 +110,7 @@ func ruleC18Sources(c *Ctx) {
 // ruleSeenOnce: the undeclared-commodity check reports each symbol once per transaction (one `seen` set
 // consulted and updated by the closure that emits the diagnostic).
 func ruleSeenOnce(c *Ctx) {
-	fd := c.P.FuncDecl("internal/analyzer", "checkUndeclaredCommodities")
+	fd := undeclaredCommodityCheck(c.P)
 	if fd == nil {
 		c.undecided("C18-ONCE", "analyzer.checkUndeclaredCommodities", "anchor", token.NoPos, "function not found")
 		return
@@ -228,7 +228,10 @@ func ruleC20(c *Ctx) {
 	}
 	// C20-TREE (SSA, in the hover handler): when a resolved tree exists, balances and the transaction list
 	// handed to the hover builder derive from the same AllTransactions() value
-	hover := c.P.SSAFunc("internal/server", "Server.Hover")
+	var hover *ssa.Function
+	if fd := c.P.handlerByParam("protocol.HoverParams"); fd != nil {
+		hover = c.P.ssaOf(fd)
+	}
 	if hover == nil {
 		c.undecided("C20-TREE", "server.Server.Hover", "anchor", token.NoPos, "hover handler not found")
 		return
@@ -266,7 +269,9 @@ func ruleC20(c *Ctx) {
 			"the hover builder receives a different transaction list than the one the balances were computed from: sums and counts disagree")
 	}
 	// C20-ONCE: AllTransactions = primary once + every FileOrder entry once
-	all := c.P.FuncDecl("internal/include", "ResolvedJournal.AllTransactions")
+	all := c.P.FindDecl("internal/include", func(fd *ast.FuncDecl, info *types.Info) bool {
+		return recvTypeName(fd) == "ResolvedJournal" && hasSuffixAny(resultTypes(fd, info), "ast.Transaction")
+	})
 	if all == nil {
 		c.undecided("C20-ONCE", "include.ResolvedJournal.AllTransactions", "anchor", token.NoPos, "method not found")
 		return
@@ -444,7 +449,9 @@ func ruleC09(c *Ctx) {
 	}
 	c.census("H-PRIMARY", "handler call sites passing a tree with its primary path", nUse, 3)
 	// inside the journal-map builder the primary is stored under the primary path parameter
-	if fd := c.P.FuncDecl("internal/server", "allJournalsWithPaths"); fd != nil {
+	if fd := c.P.FindDecl("internal/server", func(fd *ast.FuncDecl, info *types.Info) bool {
+		return fd.Recv == nil && hasSuffixAny(paramTypes(fd, info), "include.ResolvedJournal") && hasSuffixAny(resultTypes(fd, info), "ast.Journal") && strings.HasPrefix(strings.Join(resultTypes(fd, info), ""), "map[string]")
+	}); fd != nil {
 		info := c.P.InfoFor(fd)
 		okKey := false
 		ast.Inspect(fd.Body, func(x ast.Node) bool {
@@ -561,7 +568,10 @@ func ruleT11(c *Ctx) {
 	}
 	c.census("T11", "reference collectors", n, 3)
 	// dedup equality compares the file and all four coordinates
-	if fd := c.P.FuncDecl("internal/server", "locationsEqual"); fd != nil {
+	if fd := c.P.FindDecl("internal/server", func(fd *ast.FuncDecl, info *types.Info) bool {
+		pt, rt := paramTypes(fd, info), resultTypes(fd, info)
+		return fd.Recv == nil && len(pt) == 2 && strings.HasSuffix(pt[0], "protocol.Location") && strings.HasSuffix(pt[1], "protocol.Location") && len(rt) == 1 && rt[0] == "bool"
+	}); fd != nil {
 		txt := fullStr(c.P.Fset, fd.Body)
 		full := strings.Count(txt, "URI") >= 2
 		coords := 0
@@ -581,7 +591,7 @@ func ruleT11(c *Ctx) {
 		c.undecided("T11", "server.locationsEqual", "anchor", token.NoPos, "location equality function not found")
 	}
 	// rename: one TextEdit per reference location, same range, keyed by the location's URI
-	if fd := c.P.FuncDecl("internal/server", "Server.Rename"); fd != nil {
+	if fd := c.P.handlerByParam("protocol.RenameParams"); fd != nil {
 		ok1 := false
 		ast.Inspect(fd.Body, func(x ast.Node) bool {
 			rs, ok := x.(*ast.RangeStmt)
@@ -658,4 +668,38 @@ func ruleC12Pair(c *Ctx) {
 		}
 	}
 	c.census("C12-PAIR", "workspace functions that modify the resolved tree's membership", n, 2)
+}
+
+// undeclaredCommodityCheck: the analyzer function whose diagnostics carry a code mentioning COMMODITY.
+func undeclaredCommodityCheck(p *Prog) *ast.FuncDecl {
+	return p.FindDecl("internal/analyzer", func(fd *ast.FuncDecl, info *types.Info) bool {
+		found := false
+		ast.Inspect(fd.Body, func(x ast.Node) bool {
+			if kv, ok := x.(*ast.KeyValueExpr); ok && identOf(kv.Key).Name == "Code" {
+				if s, ok := stringConst(info, kv.Value); ok && strings.Contains(s, "COMMODITY") {
+					found = true
+				}
+			}
+			return true
+		})
+		return found
+	})
+}
+
+// commodityReferenceCollector: the reference collector (returns []protocol.Location) that selects .Commodity.
+func commodityReferenceCollector(p *Prog) *ast.FuncDecl {
+	return p.FindDecl("internal/server", func(fd *ast.FuncDecl, info *types.Info) bool {
+		rt := resultTypes(fd, info)
+		if fd.Recv != nil || len(rt) != 1 || rt[0] != "[]go.lsp.dev/protocol.Location" {
+			return false
+		}
+		sel := false
+		ast.Inspect(fd.Body, func(x ast.Node) bool {
+			if se, ok := x.(*ast.SelectorExpr); ok && se.Sel.Name == "Commodity" {
+				sel = true
+			}
+			return true
+		})
+		return sel
+	})
 }
